@@ -106,7 +106,7 @@ def ReluCfg.hi (c : ReluCfg) : Int := twoPow c.nsb - 1
 def ReluCfg.slope (c : ReluCfg) : Rat := match c.slopeLog with | none => 0 | some k => pow2 (-(k : Int))
 
 /-- `xq` of `quantized_relu(bits, integer, negative_slope=2^-k)(x)` BEFORE the trailing
-    `relu_upper_bound` pass: the value of the call when `is_quantized_clip` is set or no (truthy)
+    `relu_upper_bound` pass: the value of the call when `is_quantized_clip` is set or no
     upper bound is given; `qreluU` below is the full call.
     positive part: `m_i * clip(round(p)/m, 0, 1 - 1/m)`;
     leaky part:    `m_i * slope * clip(round(p*slope) / (slope*m), -1, 0)`. -/
@@ -190,13 +190,11 @@ def smoothSigmoid (x : Rat) : Rat := let y := 3 * x / 16 + 1/2; if y < 0 then 0 
 /-! ### quantized_relu: `relu_upper_bound` / `is_quantized_clip` -/
 
 /-- the bound used by the trailing pass
-    `if self.relu_upper_bound and not self.is_quantized_clip: xq = where(xq <= ub, xq, ub)`.
-    The test is Python truthiness: `relu_upper_bound = 0.0` does NOT clamp. -/
+    `if self.relu_upper_bound is not None and not self.is_quantized_clip: xq = where(xq <= ub, xq, ub)`.
+    (Until the fix of C02-relu-upper-zero the test was Python truthiness and `relu_upper_bound = 0.0` did not clamp;
+    now every given bound does, as for the float activation `ReluCfg.act`.) -/
 def ReluCfg.clamp (c : ReluCfg) : Option Rat :=
-  if c.qclip then none
-  else match c.upper with
-    | none => none
-    | some u => if u = 0 then none else some u
+  if c.qclip then none else c.upper
 
 /-- `tf.where(y <= u, y, u)` (no bound: identity) -/
 def clampTo (b : Option Rat) (y : Rat) : Rat :=
